@@ -122,6 +122,8 @@ def opt_full(T, U):
         for v in (1, 2, 3):
             for opc in "eauwijJ":
                 out.append(step(opc, t, v))
+        for opc in "pPq":
+            out.append(step(opc, t, 2))
         for opc in "nbrcmklfghxyXYdD":
             out.append(step(opc, t))
     for v in (1, 2, 3):
@@ -176,11 +178,25 @@ def ref_full():
                 out.append(step(opc, t, c))
         for v in (5, 6):
             out.append(step("w", t, 0, v))
-        for opc in "nrcmkf":
+        for opc in "nrcmkfOQ":
             out.append(step(opc, t))
     out.append(step("s"))
     for c in (0, 1, 2):
         out.append(step("W", 0, c, 7))
+    # the source optional<T>: O / Q bind to its contained object (non-const), w then writes into the source;
+    # after R a bound reference dangles: its value is printed as `dang`, a write through it ends the history (ub | na)
+    out += [step("S", 0, 0, 5), step("S", 0, 0, 6), step("E", 0, 0, 8), step("R")]
+    return out
+
+
+def ref_core():
+    out = []
+    for t in (0, 1):
+        out.append(step("a", t, 0))
+        out.append(step("w", t, 0, 4))
+        for opc in "ncOQ":
+            out.append(step(opc, t))
+    out += [step("s"), step("W", 0, 0, 7), step("S", 0, 0, 5), step("E", 0, 0, 6), step("R")]
     return out
 
 
@@ -212,12 +228,12 @@ def bref_full():
         out.append(step("e", t, 1))
         out.append(step("j", t, 2))
         out.append(step("w", t, 0, 5))
-        for opc in "nrcmkfxXyY":
+        for opc in "nrcmkfxXyYOQ":
             out.append(step(opc, t))
     out.append(step("s"))
     for c in (0, 1, 2):
         out.append(step("W", 0, c, 7))
-    out += [step("z", 0, 0), step("z", 0, 2), step("Z")]
+    out += [step("z", 0, 0), step("z", 0, 2), step("Z"), step("S", 0, 0, 5), step("E", 0, 0, 8), step("R")]
     return out
 
 
@@ -342,15 +358,22 @@ def gen(tier, rng):
     # ---------------- optional<T&>
     for op in ("ref.i", "ref.t"):
         full = ref_full()
+        core = ref_core()
         out.append(line(op, []))
         if not search:
             for h in histories(full, 2):
                 out.append(line(op, h))
+            for h in exact(core, 3):
+                out.append(line(op, h))
             if not quick:
                 for h in exact(full, 3):
                     out.append(line(op, h))
+                for h in exact(core, 4):
+                    out.append(line(op, h))
         for _ in range(nrand):
             out.append(line(op, rand_hist(rng, full, 3, 10)))
+        for _ in range(nrand):
+            out.append(line(op, rand_hist(rng, core, 4, 12)))
     for op in ("cref.i", "cref.t"):
         full = cref_full()
         core = cref_core()
